@@ -237,12 +237,12 @@ class Engine(
                     # a SQL UNION or UNION ALL, and we trust the user's intent
                     # in putting those upstream of this operation, so we also
                     # add a nested subquery here.
-                    return Select.apply_skip(operation._finish_apply(select))
+                    return self._append_unary_to_subquery(operation, select)
                 elif tag in select.skip_to.columns:
                     # The existing Projection hides a column with the same tag
                     # as the new one, so the Calculation cannot be moved
                     # upstream of it; add a nested subquery instead.
-                    return Select.apply_skip(operation._finish_apply(select))
+                    return self._append_unary_to_subquery(operation, select)
                 elif select.has_projection:
                     return select.reapply_skip(
                         after=operation,
@@ -324,7 +324,7 @@ class Engine(
                     # a SQL UNION or UNION ALL, and we trust the user's intent
                     # in putting those upstream of this operation, so we also
                     # add a nested subquery here.
-                    return Select.apply_skip(operation._finish_apply(select))
+                    return self._append_unary_to_subquery(operation, select)
                 else:
                     return select.reapply_skip(after=operation)
             case Slice():
@@ -353,6 +353,30 @@ class Engine(
             case Identity():
                 return select
         raise NotImplementedError(f"Unsupported operation type {operation} for engine {self}.")
+
+    def _append_unary_to_subquery(self, operation: UnaryOperation, select: Select) -> Select:
+        """Apply an operation to an existing `Select` that has to become a
+        nested subquery first.
+
+        Parameters
+        ----------
+        operation : `UnaryOperation`
+            Operation to add to the tree.
+        select : `Select`
+            Existing already-conformed relation tree.
+
+        Returns
+        -------
+        appended : `Select`
+            Conformed relation tree that includes the given operation.
+        """
+        if select.has_sort and not select.has_slice and select.sort.columns_required <= select.columns:
+            # A Sort that is not tied to a Slice only has an effect in the
+            # outermost query, and that is also where the guards against
+            # silently dropping it look for it, so it moves out with us.
+            subquery = select.reapply_skip(sort=None)
+            return Select.apply_skip(operation._finish_apply(subquery), sort=select.sort)
+        return Select.apply_skip(operation._finish_apply(select))
 
     def append_binary(self, operation: BinaryOperation, lhs: Relation, rhs: Relation) -> Select:
         # Docstring inherited.
